@@ -44,16 +44,16 @@ func envOr(k, d string) string {
 
 // Stage is one enumeration of the plan of a property.
 type Stage struct {
-	Binary   string         // e.g. "badger.coarse"
-	Scenario string         // scenario name registered in the harness
-	Params   map[string]any // scenario parameters
-	Bound    int            // preemption/deviation bound
-	NShard   int            // number of worker processes
-	BudgetS  float64        // soft deadline per worker
-	Optional bool           // thorough-only extras
-	Kind        string     // "" = plain sharded stage, "bfs" = level-synchronous BFS
-	Depth       int        // bfs depth
-	Seeds       [][]string // bfs seed sequences
+	Binary      string         // e.g. "badger.coarse"
+	Scenario    string         // scenario name registered in the harness
+	Params      map[string]any // scenario parameters
+	Bound       int            // preemption/deviation bound
+	NShard      int            // number of worker processes
+	BudgetS     float64        // soft deadline per worker
+	Optional    bool           // thorough-only extras
+	Kind        string         // "" = plain sharded stage, "bfs" = level-synchronous BFS
+	Depth       int            // bfs depth
+	Seeds       [][]string     // bfs seed sequences
 	MaxFrontier int
 }
 
